@@ -156,11 +156,15 @@ def run_l1(ctx, rng, cov):
         g = ctx.tlc_scenarios("RegHttpGen", cfg, workers=1, simulate="num=%d" % n, depth=depth,
                               extra=["-seed", str(ctx.seed)], label="generator " + cfg, timeout=1500)
         scns += g["scenarios"]
+    # throttle: 2 slots on the host, behaviours in which one response re-enters next() at least twice (Seek,
+    # resume after an early end).  The design (slot returned before re-entry, commit eb4e31c) finishes them;
+    # before that fix the second re-entry waited for ever (finding C12-4, seeded/fixrev-C12-4).
     leak = ctx.tlc_scenarios("RegHttpGen", "C12_gen_leak.cfg", workers=1, label="generator C12_gen_leak.cfg (BFS)")
-    blocked = [s for s in leak["scenarios"] if s.get("blocked")]
-    if len(scns) < 100 or not blocked:
-        raise vlib.ToolError("generator produced %d scenarios, %d blocked" % (len(scns), len(blocked)))
-    scns += rng.sample(blocked, min(len(blocked), 40 if thorough else 6))
+    reenter = [s for s in leak["scenarios"] if not s.get("blocked")
+               and sum(1 for e in s["steps"] if e["ev"] in ("seek", "cut")) >= 2]
+    if len(scns) < 100 or len(reenter) < 6:
+        raise vlib.ToolError("generator produced %d scenarios, %d with two re-entries" % (len(scns), len(reenter)))
+    scns += rng.sample(reenter, min(len(reenter), 60 if thorough else 10))
     for i, s in enumerate(scns):
         s["id"] = "tlc-%d" % i
     ntlc = len(scns)
@@ -334,12 +338,12 @@ def run_up(ctx, rng, cov):
     g = ctx.tlc_scenarios("RegHttpUploadGen", "C12_up_gen.cfg" if not ctx.thorough else "C12_up_gen3.cfg", workers=1,
                           label="generator upload scripts (BFS)", timeout=1500)
     scns = g["scenarios"]
-    if len(scns) < 50 or not any(s["predicted"] == "runaway" for s in scns):
-        raise vlib.ToolError("upload generator produced %d scenarios" % len(scns))
+    # with the no-progress guard (commit 94ee6b0) the design predicts that every script returns
+    if len(scns) < 50 or any(s["predicted"] == "runaway" for s in scns):
+        raise vlib.ToolError("upload generator: %d scenarios, %d predicted to run away (the design spec has the guard)"
+                             % (len(scns), sum(1 for s in scns if s["predicted"] == "runaway")))
     if not ctx.thorough and len(scns) > 260:
-        run_away = [s for s in scns if s["predicted"] == "runaway"]
-        rest = [s for s in scns if s["predicted"] != "runaway"]
-        scns = rng.sample(run_away, min(len(run_away), 60)) + rng.sample(rest, min(len(rest), 200))
+        scns = rng.sample(scns, 260)
     for i, s in enumerate(scns):
         s["id"] = "up-%d" % i
         s["R"] = 3
@@ -357,19 +361,22 @@ def run_up(ctx, rng, cov):
 
 # ------------------------------------------------------------------- design spec checks
 def model_check(ctx, cov):
-    """Exhaustive checks of (D) composed with (P).  Runs that are expected to fail show a known
-    defect at design level (the spec transcribes the code); each of them is reproduced on the
-    real code by the scenario layers, which is what produces the verdict."""
+    """Exhaustive checks of (D) composed with (P).  Runs that are expected to fail show, at design
+    level, a known defect the spec transcribes (S1) or - behind a switch - the behaviour before a fix
+    (throttle slot, upload loop), so that the reverse patches seeded/fixrev-C12-* stay explained."""
     runs = [("RegHttpMC", "C12_mc_quick.cfg", "2 hosts, 1 request, R 1-2, equal priorities, all 21 reply kinds", None),
-            ("RegHttpMC", "C12_live.cfg", "every call returns (liveness)", None),
+            ("RegHttpMC", "C12_live.cfg", "every call returns (liveness), R 2", None),
             ("RegHttpMC", "C12_mc_s1.cfg", "priorities differ: order of the code (expected: S1)", "Ok"),
-            ("RegHttpMC", "C12_mc_leak.cfg", "2 throttle slots, as the code (expected: stuck in Acquire)", "NoThrottleBlock"),
-            ("RegHttpMC", "C12_mc_leakfixed.cfg", "2 throttle slots, slot returned before re-entry", None),
-            ("RegHttpUpload", "C12_up_code.cfg", "chunk loop as the code (expected: endless repeat, S2)", "NoEndlessRepeat"),
-            ("RegHttpUpload", "C12_up_fixed.cfg", "chunk loop with the no-progress guard: terminates", None)]
+            ("RegHttpMC", "C12_mc_leak.cfg", "2 throttle slots, as the code (slot returned before re-entry): never stuck", None),
+            ("RegHttpMC", "C12_mc_leak_old.cfg", "switch FixLeak=FALSE, the code before eb4e31c (expected: stuck in Acquire; "
+             "explains seeded/fixrev-C12-4)", "NoThrottleBlock"),
+            ("RegHttpUpload", "C12_up_code.cfg", "chunk loop as the code (no-progress guard): terminates, no endless repeat", None),
+            ("RegHttpUpload", "C12_up_old.cfg", "switch Guard=FALSE, the code before 94ee6b0 (expected: endless repeat; "
+             "explains seeded/fixrev-C12-2)", "NoEndlessRepeat")]
     if ctx.thorough:
         runs += [("RegHttpMC", "C12_mc_waive.cfg", "all priority assignments, S1 pattern waived", None),
                  ("RegHttpMC", "C12_mc_doc.cfg", "all priority assignments, documented order: (P) holds unwaived", None),
+                 ("RegHttpMC", "C12_live_t.cfg", "every call returns (liveness), R 1-2", None),
                  ("RegHttpMC", "C12_mc_t3.cfg", "3 hosts, R 1-3", None),
                  ("RegHttpMC", "C12_mc_t2ids.cfg", "2 overlapping requests", None)]
     states = trans = 0
